@@ -27,7 +27,7 @@ PLAN = {"quick": {3: 15, 4: 3}, "thorough": {3: 15, 4: 5}}
 
 
 def bounds(tier):
-    return {"n=3": "all 2^15 subsets", "n=4": f"all subsets of size <= {PLAN[tier][4]} of 40", "roots": "every candidate", "confirmation flags": "by position parity, and all-unconfirmed"}
+    return {"n=3": "all 2^15 subsets", "n=4": f"all subsets of size <= {PLAN[tier][4]} of 40", "roots": "every candidate", "candidate identifiers": "strings; integers as well for n=3", "confirmation flags": "by position parity, and all-unconfirmed"}
 
 
 def universe(n):
@@ -51,14 +51,17 @@ def contradicts(a, pi):
     return set(pi[: len(E)]) == set(E) and pi[len(E)] == a[1]
 
 
-def to_lists(asns, flags):
+def to_lists(asns, flags, names=NAMES):
     WO, IRV = [], []
     for a, p in zip(asns, flags):
         if a[0] == "NEB":
-            WO.append((NAMES[a[2]], NAMES[a[1]], p))  # (loser, winner, proved)
+            WO.append((names[a[2]], names[a[1]], p))  # (loser, winner, proved)
         else:
-            IRV.append((NAMES[a[1]], {NAMES[x] for x in a[2]}, p))
+            IRV.append((names[a[1]], {names[x] for x in a[2]}, p))
     return WO, IRV
+
+
+INT_IDS = [10, 11, 12, 13]  # candidate identifiers need not be strings
 
 
 def walk(tree, path, out):
@@ -73,16 +76,26 @@ def walk(tree, path, out):
         walk(k, path + [c], out)
 
 
-def judge(n, root, asns, flags):
-    WO, IRV = to_lists(asns, flags)
-    S = {NAMES[x] for x in range(n) if x != root}
+def judge(n, root, asns, flags, int_ids=False):
+    names = INT_IDS if int_ids else NAMES
+    WO, IRV = to_lists(asns, flags, names)
+    S = {names[x] for x in range(n) if x != root}
     try:
         with contextlib.redirect_stdout(io.StringIO()), warnings.catch_warnings():
             warnings.simplefilter("ignore")
-            tree = V.buildRemainingTreeAsLists(NAMES[root], set(S), list(WO), list(IRV))
+            tree = V.buildRemainingTreeAsLists(names[root], set(S), list(WO), list(IRV))
             rendered = V.treeListToTuple(tree)
     except Exception as e:  # noqa
-        return [(f"C20|exception|{type(e).__name__}", f"{type(e).__name__}: {str(e)[:80]}")], None
+        return [(f"C20|exception|{type(e).__name__}", f"{type(e).__name__}: {str(e)[:80]} (candidate identifiers {'integers' if int_ids else 'strings'})")], None
+    if int_ids:  # judge the same tree with the string names put back
+        back = {i: s_ for i, s_ in zip(INT_IDS, NAMES)}
+
+        def ren(t):
+            if len(t) == 1:
+                return [V.LeafNode(cand=back[t[0].cand], NEBTagList=t[0].NEBTagList, IRVTagList=t[0].IRVTagList)]
+            return [back[t[0]], [ren(k) for k in t[1]]]
+
+        tree = ren(tree)
     leaves = []
     walk(tree, [], leaves)
     out = []
@@ -148,8 +161,8 @@ def run_shard(sh, rec):
             if mode == 1 and not asns:
                 continue
             fl = flags_for(len(asns), mode)
-            for root in range(n):
-                v, info = judge(n, root, asns, fl)
+            for root, int_ids in [(r, False) for r in range(n)] + ([(r, True) for r in range(n)] if (n == 3 and mode == 0) else []):
+                v, info = judge(n, root, asns, fl, int_ids)
                 rec.evals()
                 rec.trace()
                 rec.observe((n, idx, mode, root, info and sorted(info.items())))
@@ -161,7 +174,7 @@ def run_shard(sh, rec):
                     if info["two"]:
                         rec.vac("nodes_with_two_tags")
                 for key, what in v:
-                    rec.violate(key, what, {"n": n, "root": root, "assertions": [[a[0], a[1], a[2] if a[0] == "NEB" else sorted(a[2])] for a in asns], "flags": fl})
+                    rec.violate(key, what, {"n": n, "root": root, "assertions": [[a[0], a[1], a[2] if a[0] == "NEB" else sorted(a[2])] for a in asns], "flags": fl, "int_ids": int_ids})
                 if rec.want_sample((n, idx, mode, root)):
                     rec.sample({"candidates": n, "alternative_winner": NAMES[root], "assertions": [show(a) for a in asns], "confirmed": fl, "tree_has_unpruned_leaf": info and info["unpruned"]})
 
@@ -185,4 +198,4 @@ def explore(tier, seed):
 
 def run_case(case):
     asns = [(a[0], a[1], a[2]) if a[0] == "NEB" else (a[0], a[1], frozenset(a[2])) for a in case["assertions"]]
-    return judge(case["n"], case["root"], asns, case["flags"])[0]
+    return judge(case["n"], case["root"], asns, case["flags"], case.get("int_ids", False))[0]
